@@ -3,7 +3,10 @@
 Top-level clauses (from the property statement), evaluated on the real LLParser against the
 independent spec of harness/grammars.py (textbook nullable/FIRST/FOLLOW/PREDICT, Earley membership):
   ll1_not_ambiguous             G not left-recursive and PREDICT sets pairwise disjoint (LL(1) as written)
-                                => LLParser(G).is_ambiguous() is False           (both factorization settings)
+                                => LLParser(G).is_ambiguous() is False           (both factorization settings),
+                                asked on the fresh parser AND again after every parse() on the same parser
+                                object (members and non-members): the verdict is about the grammar and must not
+                                change because texts were parsed (key ...:changes-after-parsing)
   exact_language                is_ll1(G) or is_ambiguous() is False  =>  for every token string w, |w| <= L:
                                 parse(w) returns  <=>  w in L(G);  every non-member raises ParsingError
   unique_tree                   ... and the tree returned for a member (do_cleanup=False) is a derivation tree
@@ -56,7 +59,9 @@ def rule_text(tier):
     return ("exhaustive: every grammar with all nonterminals reachable in the families [" + '; '.join(parts) + "], "
             "filtered to non-left-recursive (independent left-corner closure); each constructed with "
             "smart_factorization True and False; when the grammar is LL(1) by the independent PREDICT sets or a table is "
-            "reported conflict-free, every token string up to the bound is parsed (do_cleanup=False) with both parsers and "
+            "reported conflict-free, every token string up to the bound is parsed (do_cleanup=False) with both parsers (one "
+            "parser object per setting for all texts; shortest first, in every second grammar all non-members before "
+            "the members), is_ambiguous() is re-asked after every parse, and the verdicts are "
             "compared with the Earley oracle (itself compared with the brute-force language fixpoint on every such "
             "grammar). non-trivial = LL(1) or conflict-free, and at least one member and one non-member decided")
 
@@ -179,11 +184,24 @@ def evaluate(G, start, terminals, L):
     D = gr.language_upto(G, L)[start]
     members = nonmembers = 0
     checked = [s for s in parsers if ll1 or amb[s] is False]
+    decided = []
     for w in gr.all_strings(terminals, L):
         exp = gr.member(G, start, w)
         if exp != (w in D):
             out['errors'].append(f"oracle disagreement on [{gs}] {w}: Earley {exp}, brute force {w in D}")
             return out
+        decided.append((w, exp))
+    # one parser object per setting serves all texts.  Order of the texts: shortest first, and in every
+    # second grammar (deterministically, by the grammar's text) all non-members before the members, so that
+    # both 'rejected texts first' and 'accepted texts first' histories occur.
+    if sum(map(ord, gs)) % 2:
+        decided.sort(key=lambda p: p[1])            # stable: non-members (False) first
+        hits['order:non-members-first'] += 1
+    else:
+        hits['order:shortest-first'] += 1
+    cur_amb = dict(amb)
+    flipped = set()
+    for w, exp in decided:
         members += exp
         nonmembers += (not exp)
         text = gr.text_of(w)
@@ -202,6 +220,21 @@ def evaluate(G, start, terminals, L):
                 res[smart] = ('ParsingError' if isinstance(val, PE) else type(val).__name__, None, None)
             else:
                 res[smart] = ('no-return', None, None)
+            # is_ambiguous() re-asked on the used parser: the answer must not depend on the texts parsed
+            kind2, a2, _ = gr.guarded(lambda: parsers[smart].is_ambiguous(), wall_s=WALL_BUDGET)
+            if amb[smart] is False:
+                hits['is_ambiguous re-asked after ' + ('an accepted text' if res[smart][0] == 'tree' else
+                                                       'a rejected text')] += 1
+            if (kind2 != 'ok' or a2 != cur_amb[smart]) and smart not in flipped:
+                flipped.add(smart)
+                got = a2 if kind2 == 'ok' else f"{kind2}: {a2!r}"
+                msg = (f"[{gs}] (start {start}, smart_factorization={smart}, is_ll1={ll1}): is_ambiguous() was "
+                       f"{amb[smart]} on the fresh parser and is {got} after parse({text!r}) ({res[smart][0]}) on the "
+                       f"same parser object; the verdict must not change because texts were parsed")
+                if ll1 or amb[smart] is False:
+                    fails.append(('ll1_not_ambiguous', 'changes-after-parsing', msg, w))
+                else:
+                    diags.append('supporting: ' + msg)
         for smart in checked:
             verdict, shape, tree = res[smart]
             ctx = f"[{gs}] (start {start}, smart_factorization={smart}, is_ll1={ll1}, is_ambiguous()={amb[smart]})"
@@ -336,7 +369,9 @@ def run(b):
     if stats['language-checked'] == 0 or stats['trees-validated'] == 0:
         b.error("no grammar reached the language comparison / no tree was validated")
     b.require_reach(['ll1', 'checked:nullable-followed-by-nullable:ll1', 'conflict-free-but-not-ll1-as-written',
-                     'member-decided', 'non-member-decided'])
+                     'member-decided', 'non-member-decided', 'is_ambiguous re-asked after a rejected text',
+                     'is_ambiguous re-asked after an accepted text', 'order:non-members-first',
+                     'order:shortest-first'])
 
 
 def replay_case(case):
